@@ -229,6 +229,7 @@ def storeLine (st : StoreRun) (lineNo : Nat) (line : String) : Except String (St
         let gaps := (rounds.zip (rounds.drop 1)).map fun ((t1, _), (t2, _)) => t2 - t1
         let outs : List String :=
           (if res.startsWith "panic" then [s!"PROPFAIL C10 no_panic {tag} res={res}", s!"PROPFAIL C13 no_panic {tag} cache={cacheS.take 60}"] else []) ++
+          (if res == "hang" then [s!"PROPFAIL C10 deadline_prompt {tag} construction had not returned one hour (virtual) after it began: deadline={dl} names={get "names"}"] else []) ++
           -- C10
           (if res == "ok" && !(declared.all fun n => snap.any fun e => e.name == n && e.ent.isSome)
             then [s!"PROPFAIL C10 init_complete {tag} declared={declared} snap={showSnap snap}"] else []) ++
